@@ -48,6 +48,8 @@ pub fn into_bytes_offcircuit_native() {
 #[cfg_attr(kani, kani::stub(std::fmt::format, crate::stubs::format_stub))]
 #[cfg_attr(kani, kani::stub(midnight_circuits::biguint::biguint_gadget::BigUintGadget::to_le_bytes, crate::stubs::BigUintStubs::to_le_bytes))]
 #[cfg_attr(kani, kani::stub(blst::blst_scalar_fr_check, crate::stubs::blst_cut_scalar_fr_check))]
+#[cfg_attr(kani, kani::stub(core::cell::RefCell::borrow_mut, crate::stubs::RefCellCuts::borrow_mut))]
+#[cfg_attr(kani, kani::stub(core::cell::RefCell::borrow, crate::stubs::RefCellCuts::borrow))]
 pub fn into_bytes_incircuit_biguint() {
     let n: usize = any();
     let l: usize = any();
@@ -104,42 +106,26 @@ fn op_of(sel: u8, p: u64) -> Operation {
     }
 }
 
-fn names(prefix: &str, n: usize) -> Vec<String> {
-    let mut v = Vec::new();
-    let all = ["0", "1", "2", "3", "4", "5"];
+/// n empty names (name resolution is stubbed; empty Strings own no heap memory)
+fn names(n: usize) -> Vec<String> {
+    let mut v = Vec::with_capacity(4);
     let mut i = 0;
     while i < n {
-        let mut s = String::from(prefix);
-        s.push_str(all[i]);
-        v.push(s);
+        v.push(String::new());
         i += 1;
     }
     v
 }
 
-/// For every operation (17) and every input/output count in 0..=6: if the arity check performed by
-/// `ZkirRelation::from_instructions` accepts the instruction, the off-circuit interpreter's
-/// `process_instruction` does not panic on it (its `inps[i]`, `inps[..len/2]`, and the
-/// `names.len() == values.len()` assertion of `insert_many`). Every name resolves to the Bool `true`
-/// (memory/witness lookups are stubbed), so operations fail with their typed error after the index
-/// expressions have been evaluated.
-#[cfg_attr(kani, kani::proof)]
-#[cfg_attr(kani, kani::unwind(9))]
-#[cfg_attr(kani, kani::stub(std::fmt::format, crate::stubs::format_stub))]
-#[cfg_attr(kani, kani::stub(std::hash::RandomState::new, crate::stubs::random_state_new_stub))]
-#[cfg_attr(kani, kani::stub(std::collections::HashMap::get, crate::stubs::HmStubs::get))]
-#[cfg_attr(kani, kani::stub(midnight_zkir::verif_hooks::insert, crate::stubs::zkir_insert_stub))]
-pub fn arity_vs_offcircuit_indices() {
-    let sel: u8 = any();
+fn arity_run(sel: u8) {
     let p: u64 = any();
     let nin: usize = any();
     let nout: usize = any();
-    assume(sel <= 16 && nin <= 6 && nout <= 6 && p <= 40);
-    let instr = Instruction { operation: op_of(sel, p), inputs: names("i", nin), outputs: names("o", nout) };
+    assume(nin <= 4 && nout <= 4 && p <= 40);
+    let instr = Instruction { operation: op_of(sel, p), inputs: names(nin), outputs: names(nout) };
     let accepted = ZkirRelation::from_instructions(core::slice::from_ref(&instr)).is_ok();
     crate::vcover!(accepted);
     crate::vcover!(!accepted);
-    crate::vcover!(accepted && sel == 10 && nin == 4);
     if accepted {
         let value = IrValue::Bool(true);
         #[cfg(kani)]
@@ -153,3 +139,59 @@ pub fn arity_vs_offcircuit_indices() {
     }
     core::mem::forget(instr);
 }
+
+/// For one operation and every input/output count in 0..=4: if the arity check performed by
+/// `ZkirRelation::from_instructions` accepts the instruction, the off-circuit interpreter's
+/// `process_instruction` does not panic on it (its `inps[i]`, `inps[..len/2]`, and the
+/// `names.len() == values.len()` assertion of `insert_many`). Every name resolves to the Bool `true`
+/// (memory/witness lookups are stubbed), so most operations fail with their typed error after the
+/// index expressions have been evaluated. One harness per operation (17).
+macro_rules! arity_harness {
+    ($name:ident, $sel:expr) => {
+        #[cfg_attr(kani, kani::proof)]
+        #[cfg_attr(kani, kani::unwind(7))]
+        #[cfg_attr(kani, kani::stub(std::fmt::format, crate::stubs::format_stub))]
+        #[cfg_attr(kani, kani::stub(std::hash::RandomState::new, crate::stubs::random_state_new_stub))]
+        #[cfg_attr(kani, kani::stub(std::collections::HashMap::get, crate::stubs::HmStubs::get))]
+        #[cfg_attr(kani, kani::stub(midnight_zkir::verif_hooks::insert, crate::stubs::zkir_insert_stub))]
+        pub fn $name() {
+            arity_run($sel)
+        }
+    };
+}
+arity_harness!(arity_load, 0);
+arity_harness!(arity_publish, 1);
+arity_harness!(arity_assert_equal, 2);
+arity_harness!(arity_assert_not_equal, 3);
+arity_harness!(arity_is_equal, 4);
+arity_harness!(arity_add, 5);
+arity_harness!(arity_sub, 6);
+arity_harness!(arity_mul, 7);
+arity_harness!(arity_neg, 8);
+arity_harness!(arity_mod_exp, 9);
+arity_harness!(arity_inner_product, 10);
+arity_harness!(arity_affine_coordinates, 11);
+arity_harness!(arity_into_bytes, 12);
+arity_harness!(arity_from_bytes, 13);
+arity_harness!(arity_poseidon, 14);
+arity_harness!(arity_sha256, 15);
+arity_harness!(arity_sha512, 16);
+pub const ARITY_HARNESSES: &[(&str, fn())] = &[
+    ("h_zkir::arity_load", arity_load),
+    ("h_zkir::arity_publish", arity_publish),
+    ("h_zkir::arity_assert_equal", arity_assert_equal),
+    ("h_zkir::arity_assert_not_equal", arity_assert_not_equal),
+    ("h_zkir::arity_is_equal", arity_is_equal),
+    ("h_zkir::arity_add", arity_add),
+    ("h_zkir::arity_sub", arity_sub),
+    ("h_zkir::arity_mul", arity_mul),
+    ("h_zkir::arity_neg", arity_neg),
+    ("h_zkir::arity_mod_exp", arity_mod_exp),
+    ("h_zkir::arity_inner_product", arity_inner_product),
+    ("h_zkir::arity_affine_coordinates", arity_affine_coordinates),
+    ("h_zkir::arity_into_bytes", arity_into_bytes),
+    ("h_zkir::arity_from_bytes", arity_from_bytes),
+    ("h_zkir::arity_poseidon", arity_poseidon),
+    ("h_zkir::arity_sha256", arity_sha256),
+    ("h_zkir::arity_sha512", arity_sha512),
+];
